@@ -40,7 +40,7 @@ def polyline(it):
 
 
 def check(case, min_angle=40.0, sep=2.0, seg_lo=1 / 200.0, seg_hi=1 / 10.0, seg_r=8.0,
-          rise=20.0, clearance=1.0, check_seg=True):
+          rise=20.0, clearance=1.0, check_seg=True, max_ratio=2.0):
     lam = C_MHZ_M / case['f']
     items = rgeo.transformed(case)
     ground = case.get('env') is not None and case['env']['kind'] != 'free'
@@ -85,6 +85,9 @@ def check(case, min_angle=40.0, sep=2.0, seg_lo=1 / 200.0, seg_hi=1 / 10.0, seg_
                 ang = math.degrees(math.acos(max(-1, min(1, d @ d2 / np.linalg.norm(d) / np.linalg.norm(d2)))))
                 if ang < min_angle - 1e-6:
                     return 'junction angle below 40 degrees'
+                la, lb = np.linalg.norm(d), np.linalg.norm(d2)
+                if max(la, lb) > max_ratio * min(la, lb) * (1 + 1e-6):
+                    return 'adjacent segments differ in length by more than a factor 2'
                 joined.setdefault(w, set()).add(w2)
                 joined.setdefault(w2, set()).add(w)
             elif dist < 2.5 * tol:
@@ -92,9 +95,20 @@ def check(case, min_angle=40.0, sep=2.0, seg_lo=1 / 200.0, seg_hi=1 / 10.0, seg_
     nb = {w: joined.get(w, set()) | {w} for w in range(len(items))}
     for a in range(len(items)):
         for b in range(a + 1, len(items)):
-            if b in nb[a] or (nb[a] & nb[b]):
+            if b in nb[a]:
                 continue
             need = sep * max(lens[a].max(), lens[b].max())
+            if nb[a] & nb[b]:
+                # joined through a common neighbour: they start close to each other by construction,
+                # but they must not approach (or cross) each other anywhere else
+                ee = min(np.linalg.norm(x - y) for x in (polys[a][0], polys[a][-1]) for y in (polys[b][0], polys[b][-1]))
+                need = min(need, 0.7 * ee)
+                pa, pb = polys[a], polys[b]
+                for i in range(len(pa) - 1):
+                    for j in range(len(pb) - 1):
+                        if seg_seg_dist(pa[i], pa[i + 1], pb[j], pb[j + 1]) < need:
+                            return 'wires joined through a common neighbour approach or cross each other'
+                continue
             pa, pb = polys[a], polys[b]
             # coarse bounding test first
             if np.linalg.norm(pa.mean(0) - pb.mean(0)) > need + np.linalg.norm(pa - pa.mean(0), axis=1).max() \
